@@ -29,7 +29,7 @@ Qed.
 (* ---- a history: R0: M0 -> M1 (g0), R1: M1 -> M2 (g0 or g1), R2: M2 -> (no rule) in the model; reaction 3,
    metabolite 3, gene 2 and the groups 0, 1, 2 outside ---- *)
 Definition s0 : st :=
-  init [0; 1; 2] [0; 1; 2] [0; 1]
+  init [0; 1; 2] [0; 1; 2] [0; 1] [] [(2, 103)] [] []          (* metabolite 2 has the legacy identifier "M-D[e]" *)
        [(0, [(0, -1); (1, 1)]); (1, [(1, -1); (2, 1)]); (2, [(2, -1)])]
        [(0, [0]); (1, [0; 1]); (2, [1; 2])]
        [(0, [0]); (1, [0; 1])]
@@ -45,6 +45,7 @@ Definition hist : list op :=
     SetId CM 1 id_empty;                  (* refused by the solver: ValueError, nothing changed *)
     SetId CG 0 5; SetId CP 0 4; SetId CP 1 4; SetId CR 2 id_nonstr;
     SetKind 1 2; SetKind 1 9;
+    SetId CR 1 100; EscapeIds [(100, 200); (103, 203)]; SetBounds 1 (-5) 7; SetBounds 1 3 2;   (* "R-b" -> "R__b", "M-D[e]" -> ... *)
     RemoveRxn 0 true;                     (* metabolite 0 goes with it as an orphan; the group 0 loses the reaction *)
     RemoveGenes [1] true;                 (* gene 1 ("g1") leaves; R1 = g5 or g1 survives *)
     RemoveMet 2 true;                     (* destructive: reactions 1 and 2 leave, group 1 loses reaction 1 *)
@@ -55,7 +56,7 @@ Proof. vm_compute. repeat split. Qed.
 Example hist_nontrivial :
   let s := run vfix hist s0 in
   lst s CR = [3] /\ lst s CM = [1; 3] /\ lst s CG = [0; 2] /\ lst s CP = [1] /\
-  map (oid s CR) [0; 1; 2; 3] = [7; 1; 2; 3] /\ oid s CG 0 = 5 /\ oid s CP 0 = 4 /\ oid s CP 1 = 1 /\
+  map (oid s CR) [0; 1; 2; 3] = [7; 200; 2; 3] /\ oid s CM 2 = 203 /\ oid s CG 0 = 5 /\ oid s CP 0 = 4 /\ oid s CP 1 = 1 /\
   members s 0 = [(CM, 1); (CG, 0)] /\ members s 1 = [(CR, 3); (CG, 2)] /\ kind s 1 = 2 /\
   map snd (map (step vfix (run vfix (firstn 4 hist) s0)) [AddGroups [1; 1]]) = [RaiseValueError].
 Proof. vm_compute. repeat split. Qed.
